@@ -9,8 +9,8 @@
 //!    {untouched, re-add with the bumped generation}. "Inside an object stream" exists only in
 //!    revisions whose cross-reference section is a stream (type-2 entries, §7.5.8) and only for
 //!    generation 0 (§7.5.7). Every file is opened under the presets strict, default, lenient.
-//!  * `recovery-scan`: bases without object streams, 1..=K revisions made of plain redefinitions
-//!    only, with the cross-reference data wrecked in three ways that force the recovery scan;
+//!  * `recovery-scan`: bases without object streams × end-of-line flavour {LF, CR, CRLF} of the
+//!    whole file (ISO 32000-1 7.2.3), 1..=K revisions made of plain redefinitions only, with the cross-reference data wrecked in three ways that force the recovery scan;
 //!    presets with recovery enabled (default, lenient).
 //! Oracle: model map object → latest value / null when freed; the reference reader
 //! (refpdf::file::PdfFile + strict validator) must agree with the model on every file before the
@@ -18,7 +18,7 @@
 use crate::util::objcmp;
 use oxidize_pdf::parser::objects::PdfObject;
 use oxidize_pdf::parser::{ParseOptions, PdfReader};
-use refpdf::builder::{FileBuilder, Revision, XrefForm};
+use refpdf::builder::{Eol, FileBuilder, Revision, XrefForm};
 use refpdf::file::{PdfFile, XEntry};
 use refpdf::syntax::Obj;
 use serde_json::json;
@@ -92,14 +92,15 @@ struct History {
 }
 
 /// Build the base revision and let `c` choose the appended revisions.
-fn choose_history(c: &mut Ctx, bases: &[usize], min_revs: usize, max_revs: usize, plain_only: bool) -> History {
+fn choose_history(c: &mut Ctx, bases: &[usize], eols: &[Eol], min_revs: usize, max_revs: usize, plain_only: bool) -> History {
     let base = *c.pick_from("base", bases);
+    let eol = if eols.len() > 1 { *c.pick_from("eol", eols) } else { eols[0] };
     let (form0, objstm0) = match base {
         0 => (XrefForm::Table, false),
         1 => (XrefForm::Stream, false),
         _ => (XrefForm::Stream, true),
     };
-    let mut desc = vec![format!("base={}", ["classic", "xref-stream", "xref-stream+objstm"][base])];
+    let mut desc = vec![format!("base={} eol={eol:?}", ["classic", "xref-stream", "xref-stream+objstm"][base])];
     let mut r0 = Revision::new(form0);
     r0.add(1, Obj::dict(vec![("Type", Obj::name("Catalog")), ("Pages", Obj::Ref(P, 0))]));
     r0.add(
@@ -121,6 +122,7 @@ fn choose_history(c: &mut Ctx, bases: &[usize], min_revs: usize, max_revs: usize
         tracks.push(Track { num: n, events: vec![Ev { rev: 0, kind: if objstm0 { Kind::InStm } else { Kind::Plain }, gen: 0, val: Some(v) }] });
     }
     let mut fb = FileBuilder::new(1);
+    fb.eol = eol;
     fb.revisions.push(r0);
     let mut fillers = Vec::new();
 
@@ -340,15 +342,16 @@ fn replace_last(bytes: &mut Vec<u8>, from: &[u8], to: &[u8]) -> bool {
 
 const DAMAGES: [&str; 3] = ["final-startxref-points-at-0", "final-startxref-points-past-EOF", "every-startxref-keyword-wrecked"];
 
-fn damage(bytes: &[u8], kind: usize, final_xref: usize) -> Vec<u8> {
+fn damage(bytes: &[u8], kind: usize, final_xref: usize, eol: Eol) -> Vec<u8> {
     let mut b = bytes.to_vec();
-    let old = format!("startxref\n{final_xref}\n%%EOF\n");
+    let e = eol.s();
+    let old = format!("startxref{e}{final_xref}{e}%%EOF{e}");
     match kind {
         0 => {
-            assert!(replace_last(&mut b, old.as_bytes(), b"startxref\n0\n%%EOF\n"));
+            assert!(replace_last(&mut b, old.as_bytes(), format!("startxref{e}0{e}%%EOF{e}").as_bytes()));
         }
         1 => {
-            let new = format!("startxref\n{}\n%%EOF\n", bytes.len() + 1000);
+            let new = format!("startxref{e}{}{e}%%EOF{e}", bytes.len() + 1000);
             assert!(replace_last(&mut b, old.as_bytes(), new.as_bytes()));
         }
         _ => {
@@ -379,7 +382,7 @@ pub fn run(rep: &mut Report) {
     rep.note("K", json!(k));
 
     rep.explore("histories", Explore::full(), |c: &mut Ctx| {
-        let h = choose_history(c, &[0, 1, 2], 0, k, false);
+        let h = choose_history(c, &[0, 1, 2], &[Eol::Lf], 0, k, false);
         let built = h.fb.build();
         c.input(vx::hbytes(&built.bytes));
         if h.tracks.iter().any(|t| t.events.len() > 1) {
@@ -400,14 +403,14 @@ pub fn run(rep: &mut Report) {
     });
 
     rep.explore("recovery-scan", Explore::full(), |c: &mut Ctx| {
-        let h = choose_history(c, &[0, 1], 1, k, true);
+        let h = choose_history(c, &[0, 1], &[Eol::Lf, Eol::Cr, Eol::CrLf], 1, k, true);
         let dk = c.choose("damage", DAMAGES.len());
         let built = h.fb.build();
         if let Err(e) = reference_agrees(&built.bytes, &h, true) {
             c.fail("C04/harness-reference-reader-disagrees-with-model", format!("{} :: {e}", h.desc.join(" | ")));
             return;
         }
-        let bytes = damage(&built.bytes, dk, *built.xref_offsets.last().unwrap());
+        let bytes = damage(&built.bytes, dk, *built.xref_offsets.last().unwrap(), h.fb.eol);
         c.input(vx::hbytes(&bytes));
         if h.tracks.iter().any(|t| t.events.len() > 1) {
             c.nontrivial();
